@@ -75,3 +75,28 @@ Definition get_operation_mode (values : list (mode * Z)) (settings : list sensor
       | Ok _ => Ok None
       | Exc e => Exc e end
   | _, _ => Exc EValue end.
+
+(* ---------------------------------------------------------------- guarded setters: set_grid_export_limit, set_ongrid_battery_dod *)
+(* `if <lo> <= x [<= <hi>]: await self.write_setting(id, [c -] x)`; getter `return [c -] await self.read_setting(id)` (generated) *)
+Record gsetter := mkGS { gs_id : string; gs_lo : option Z; gs_hi : option Z; gs_compl : option Z }.
+
+Definition gs_accepts (g : gsetter) (x : Z) : bool :=
+  (match gs_lo g with Some lo => lo <=? x | None => true end) && (match gs_hi g with Some hi => x <=? hi | None => true end).
+Definition gs_tr (g : gsetter) (x : Z) : Z := match gs_compl g with Some c => c - x | None => x end.
+
+(* the new register file and the write requests transmitted (first register, count) *)
+Definition run_gsetter (settings : list sensor) (sh : ws_shape) (g : gsetter) (x : Z) (r : rfile) : res (rfile * list (Z * Z)) :=
+  if gs_accepts g x then
+    match lookup (gs_id g) settings with
+    | Some s => match write_setting sh r s (IInt (gs_tr g x)) with Ok (r', w) => Ok (r', [w]) | Exc e => Exc e end
+    | None => Exc EValue end
+  else Ok (r, []).
+
+Definition run_ggetter (settings : list sensor) (g : gsetter) (r : rfile) : res (option Z) :=
+  match lookup (gs_id g) settings with
+  | Some s => match read_setting r s with
+              | Ok (VInt v) => Ok (Some (gs_tr g v))
+              | Ok VNone => match gs_compl g with None => Ok None | Some _ => Exc EType end     (* `100 - None` *)
+              | Ok _ => Exc EType
+              | Exc e => Exc e end
+  | None => Exc EValue end.
